@@ -59,8 +59,11 @@ def networks(
     """
     n = draw(st.integers(min_n, max_n))
     nlab = draw(st.integers(0 if allow_scalar else 1, max(1, min(2 * n, 12))))
+    if connected:
+        # n - 1 spanning labels are needed before any other
+        nlab = max(nlab, n - 1) + draw(st.integers(0, 3))
     kind = draw(st.sampled_from(alphabets))
-    labels = _alphabet(kind, nlab)
+    labels = _alphabet(kind, nlab) if nlab <= 40 else [chr(0x4E00 + i) for i in range(nlab)]
     terms = [[] for _ in range(n)]
     flags = set()
     if connected and n > 1 and nlab >= 1:
